@@ -198,3 +198,23 @@ Proof.
   pose proof (lpb_covers_own_blocks size self evs b F I Hb) as C. fold nd in C.
   unfold window, honest_confirms in Hw. lia.
 Qed.
+
+(** blockfactory.go: Confirms = block.BlockNo() - lpbNo in uint64.  If lpbNo were above the block
+    number (possible only after the chain was reset below the node's own last block), the
+    subtraction wraps, and so does the window's lower bound in getPreLIB: the window is
+    (lpbNo, no], empty -- the block confirms nothing, not even itself. *)
+Lemma underflow_window_empty : forall no lpb bp left_ c,
+  0 <= no < lpb -> lpb < 9223372036854775808 ->
+  let last := mkC (mkB 0 no (u64 (no - lpb))) bp left_ in
+  in_window (win_min last) (win_max last) c = false.
+Proof.
+  intros no lpb bp left_ c H1 H2 last. unfold in_window, win_min, win_max, last, u64. simpl.
+  assert (E1 : (no - lpb) mod 18446744073709551616 = no - lpb + 18446744073709551616).
+  { symmetry. apply (Z.mod_unique (no - lpb) 18446744073709551616 (-1)); lia. }
+  rewrite E1.
+  assert (E2 : (no - (no - lpb + 18446744073709551616) + 1) mod 18446744073709551616 = lpb + 1).
+  { symmetry. apply (Z.mod_unique _ 18446744073709551616 (-1)); lia. }
+  rewrite E2.
+  destruct (lpb + 1 <=? b_no (c_bi c)) eqn:A; destruct (b_no (c_bi c) <=? no) eqn:B; auto.
+  apply Z.leb_le in A. apply Z.leb_le in B. lia.
+Qed.
